@@ -54,10 +54,12 @@ package templater
 //@ func ParseFunc
 //@ props C15 C13
 //@ nilsafe
+//@ modifies nothing
 //@ ensures [unknown-function-is-nothing] imp(!has(result_of(GetFuncs, 0), result_of(parseStr, 0)), f == nil && len(args) == 0)
 //@ ensures [known-function-with-its-arguments] imp(has(result_of(GetFuncs, 0), result_of(parseStr, 0)), f == result_of(GetFuncs, 0)[result_of(parseStr, 0)] && args == result_of(parseStr, 1))
 //@ at call parseStr assert arg(v) == v0
 
 //@ func UUID
 //@ props C15 C13
+//@ modifies nothing
 //@ ensures [uuid-failure-is-an-error] imp(result_of(uuid.NewV4, 1) != nil, result1 != nil)
